@@ -243,31 +243,35 @@ theorem flushComments_step (o σ) : Step σ (flushComments o σ) [] := (flushCom
 theorem listPost_step (o : Opts) (hm : o.minify = false) (n sep last σ) :
     Step σ (listPost o n sep last σ) last := by
   unfold listPost
-  refine Step.seq (b := if (n = 1 && !sep) = true then { σ with wantNewline := false } else σ)
-    ?_ (comments_step o hm last _) (by simp)
-  split
-  · exact Keeps.step ⟨rfl, rfl, rfl⟩
-  · exact Step.refl σ
+  have h1 : Step σ (if (decide (n = 1) && !sep) = true then { σ with wantNewline := false } else σ) [] := by
+    split
+    · exact Keeps.step ⟨rfl, rfl, rfl⟩
+    · exact Step.refl σ
+  exact Step.seq h1 (comments_step o hm last _) (by simp)
 
 /-! ### the comment-splitting loops on well-formed lists -/
 
-theorem classify_of_onlyLast (pos cmdEnd : Pos) (hasCmd : Bool) :
-    ∀ cs : List Com, onlyLast (fun c => hasCmd && c.endAfter cmdEnd) cs = true →
-      classify pos cmdEnd hasCmd cs =
-        (beforeOf pos cmdEnd hasCmd cs, midOf pos cmdEnd hasCmd cs, endOf cmdEnd hasCmd cs, [])
-  | [], _ => by simp [classify, beforeOf, midOf, endOf]
+theorem classifyP_of_onlyLast (pe pa : Com → Bool) :
+    ∀ cs : List Com, onlyLast pe cs = true →
+      classifyP pe pa cs =
+        (cs.filter (fun c => !pe c && !pa c), cs.filter (fun c => !pe c && pa c), cs.filter pe, [])
+  | [], _ => by simp [classifyP]
   | [c], _ => by
-    by_cases h : (hasCmd && c.endAfter cmdEnd) = true
-    · simp [classify, beforeOf, midOf, endOf, h]
-    · by_cases h2 : c.pos.after pos = true <;> simp [classify, beforeOf, midOf, endOf, h, h2]
+    cases h : pe c <;> cases h2 : pa c <;> simp [classifyP, h, h2]
   | c :: d :: rest, hw => by
     simp only [onlyLast, Bool.and_eq_true, Bool.not_eq_true'] at hw
-    have ih := classify_of_onlyLast pos cmdEnd hasCmd (d :: rest) hw.2
-    have h : (hasCmd && c.endAfter cmdEnd) = false := hw.1
-    rw [classify]
+    have ih := classifyP_of_onlyLast pe pa (d :: rest) hw.2
+    have h : pe c = false := hw.1
+    rw [classifyP]
     simp only [h, Bool.false_eq_true, ↓reduceIte, ih]
-    by_cases h2 : c.pos.after pos = true <;>
-      simp [beforeOf, midOf, endOf, h, h2, List.filter_cons]
+    cases h2 : pa c <;> simp [h, h2, List.filter_cons]
+
+theorem classify_of_onlyLast (pos cmdEnd : Pos) (hasCmd : Bool) (cs : List Com)
+    (hw : onlyLast (isEndCom cmdEnd hasCmd) cs = true) :
+    classify pos cmdEnd hasCmd cs =
+      (beforeOf pos cmdEnd hasCmd cs, midOf pos cmdEnd hasCmd cs, endOf cmdEnd hasCmd cs, []) := by
+  unfold classify beforeOf midOf endOf
+  exact classifyP_of_onlyLast _ _ cs hw
 
 theorem splitLeft_of_onlyLast (pos : Pos) :
     ∀ cs : List Com, onlyLast (fun c => c.pos.after pos) cs = true →
